@@ -450,4 +450,9 @@ def outcome (handled escalated : List String) (o : Out α) : Except String (Opti
   | .exc c => if handled.contains c then .ok none else .error c
   | .warn c x => if escalated.contains c then (if handled.contains c then .ok none else .error c) else .ok (some x)
 
+/-- Python's `min(l)` (`none`: `min([])` raises ValueError); the first of equal minima is kept -/
+def minOpt [LT α] [DecidableRel (α := α) (· < ·)] : List α → Option α
+  | [] => none
+  | s :: ss => some (ss.foldl (fun m x => if x < m then x else m) s)
+
 end Np
